@@ -14,11 +14,13 @@ META = {
  "C07": e1meta("22 creation orders of <=3 decrementers and <=2 waiters plus a late waiter under all schedules with <=K deviations; oracle: wait returns only after N decrements began, all waiters released, nobody left queued."),
  "C08": e1meta("Documented SPSC protocol over one uncondition variable, 1-3 hand-offs, under all schedules with <=K deviations; oracle: values arrive in order exactly once, a waiter never resumes without its signal, slot empty at the end."),
  "C09": e1meta("Single-slot mailbox over myth_felock with 1-2 producers/consumers and a plain lock/unlock observer under all schedules with <=K deviations; oracle: multiset consumed == produced, status under the lock equals the waited-for value, exclusivity witness."),
+ "C12": e1meta("Create/join/detach/try-join/timed-join programs with late joins, intervening creations and five stack sizes under all schedules with <=K deviations; an ownership ledger fed by the allocation/release hooks flags hand-out of something owned, double release, release of a stack the releasing worker still runs on, overlapping live stacks, and poisons released stacks/records so late legitimate-looking uses fail deterministically."),
+ "C13": e1meta("Every history of <=2/3 create/reap cycles over five reap modes under all schedules with <=K deviations; oracle: at quiescence every record and stack handed out has been released exactly once, no fresh allocation after the first cycle on one worker, try-join busy only before the target finished, timed-join gives up only after its (virtual) deadline, detach leaves the target's stack data intact."),
  "C14": e1meta("1-3 concurrent callers plus a late call with four kinds of init routine under all schedules with <=K deviations; oracle: init count == 1, completed flag visible to every caller on return."),
 }
 NOT_APPLICABLE = {}
 ENGINES = [
- {"name": "E1 mythmc", "path": "engine/mythmc", "serves_properties": ["C01", "C04", "C05", "C06", "C07", "C08", "C09", "C14"],
+ {"name": "E1 mythmc", "path": "engine/mythmc", "serves_properties": ["C01", "C04", "C05", "C06", "C07", "C08", "C09", "C12", "C13", "C14"],
   "kind_free_text": "deviation-bounded stateless model checker: token-passing scheduler behind the MYTH_VERIF hooks of the real library, explorer forking one child per schedule"},
 ]
 NOTES = ("./check <id> --tier quick|thorough builds the library from /repo's working tree with -DMYTH_VERIF, runs the components listed in engine/registry.py and writes evidence/<id>.json. "
